@@ -91,7 +91,7 @@ PLANS = {
     "C07": dict(
         runs=pgm_runs("C07", 600, 4000),
         kinds={"routing_deviation", "routing_scan_length", "routing_window", "routing_hook_mismatch", "routing_trace_length",
-               "level_size_bound", "height_bound", "segments_count_bound"},
+               "level_size_bound", "height_bound", "segments_count_bound", "top_level_exceeds_scan_budget"},
         rule="as C02, n up to 20000 in the non-chunked cases; per query the H2 routing trace of every level is judged "
              "(deviation <= EpsRec+1, keys compared <= 2*EpsRec+3 / window inside the bound, cross-checked against an "
              "independent recomputation of the responsible segment); per index the level-size recurrence and the height "
